@@ -87,6 +87,8 @@ def one_store(rng, workdir: Path, rec, k):
     extras = [n for n in ('vx_simple', 'vx_species', 'vx_modes') if rng.random() < 0.6]
     if rng.random() < 0.3:
         extras.append('vx_optfirst')
+    if rng.random() < 0.2:
+        extras.append('se')              # a field set with a very short name
     if rng.random() < 0.3:
         extras.append('vx_allopt')       # a set a trajectory may leave entirely unset
         if rng.random() < 0.3:
